@@ -469,7 +469,7 @@ def program(cx, rng, I, pool_t, pool_d):
                 r, dr = a.clone(), da.clone()
             elif op == 'where' and da.shape == db.shape:
                 r, dr = a.where(a.gt(b), b), torch.where(da > db, da, db)
-            elif op == 'stackself' and da.shape == db.shape and (a.default == b.default or (a.default != a.default and b.default != b.default)):
+            elif op == 'stackself' and da.shape == db.shape and a.default == b.default:      # stack needs equal defaults (NaN never is)
                 r, dr = I.stack([a, b]), torch.stack([da, db])
             elif op == 'exp':
                 r, dr = a.clamp_max(3.0).exp(), da.clamp_max(3.0).exp()
